@@ -212,3 +212,73 @@ Proof.
 Qed.
 
 End SarMono.
+
+(* ---------------------------------------------------------------- infinite voltages *)
+
+Section SarInf.
+Variable bits : Z.
+Hypothesis Hb : (1 <= bits)%Z.
+
+Lemma sar_loop_ninf : forall (n : nat) (i : Z) (s : sar_state),
+  rem s = ninf -> is_finite (ref s) = true -> 0 <= B2R (ref s) ->
+  acc (sar_loop bits n i s) = acc s.
+Proof.
+  induction n as [|n IH]; intros i s Hr Ff Pf; [reflexivity|].
+  cbn [sar_loop]. destruct (half_ref (ref s) Ff Pf) as [Fh Ph].
+  assert (Hit : bge (rem s) (ref s) = false).
+  { rewrite Hr. unfold bge, ble. destruct (ref s); try discriminate; reflexivity. }
+  rewrite IH; unfold sar_step; rewrite Hit; cbn [acc rem ref]; auto.
+Qed.
+
+Lemma sar_loop_pinf : forall (n : nat) (i : Z) (s : sar_state),
+  (0 <= i)%Z -> (i + Z.of_nat n <= bits)%Z ->
+  rem s = pinf -> is_finite (ref s) = true -> 0 <= B2R (ref s) ->
+  (acc (sar_loop bits n i s) + 2 ^ (bits - (i + Z.of_nat n)) = acc s + 2 ^ (bits - i))%Z.
+Proof.
+  induction n as [|n IH]; intros i s Hi Hn Hr Ff Pf.
+  - cbn [sar_loop]. rewrite Z.add_0_r. reflexivity.
+  - cbn [sar_loop]. destruct (half_ref (ref s) Ff Pf) as [Fh Ph].
+    assert (Hit : bge (rem s) (ref s) = true).
+    { rewrite Hr. unfold bge, ble. destruct (ref s); try discriminate; reflexivity. }
+    assert (Hsub : bsub pinf (ref s) = pinf) by (destruct (ref s); try discriminate; reflexivity).
+    assert (Hi' : (i < bits)%Z) by lia.
+    replace (i + Z.of_nat (S n))%Z with (i + 1 + Z.of_nat n)%Z by lia.
+    rewrite IH; try lia; unfold sar_step; rewrite Hit; cbn [acc rem ref]; auto.
+    + unfold digital_value. rewrite (pow_split bits i Hi Hi'). lia.
+    + rewrite Hr. exact Hsub.
+Qed.
+
+Theorem sar_acc_ninf (vmax : b64) :
+  is_finite vmax = true -> 0 <= B2R vmax -> sar_acc bits vmax ninf = 0%Z.
+Proof.
+  intros Fv Pv. unfold sar_acc. destruct (half_ref vmax Fv Pv) as [Fh Ph].
+  rewrite sar_loop_ninf; auto.
+Qed.
+
+Theorem sar_acc_pinf (vmax : b64) :
+  is_finite vmax = true -> 0 <= B2R vmax -> sar_acc bits vmax pinf = (2 ^ bits - 1)%Z.
+Proof.
+  intros Fv Pv. unfold sar_acc. destruct (half_ref vmax Fv Pv) as [Fh Ph].
+  generalize (sar_loop_pinf (Z.to_nat bits) 0 {| acc := 0; rem := pinf; ref := bdiv vmax (bofZ 2) |}
+                ltac:(lia) ltac:(lia) eq_refl Fh Ph).
+  cbn [acc]. replace (bits - (0 + Z.of_nat (Z.to_nat bits)))%Z with 0%Z by lia.
+  rewrite Z.sub_0_r. change (2 ^ 0)%Z with 1%Z. lia.
+Qed.
+
+(* monotone over all non-NaN voltages, infinities included *)
+Theorem sar_acc_monotone_ext (vmax x y : b64) :
+  is_finite vmax = true -> 0 <= B2R vmax ->
+  bis_nan x = false -> bis_nan y = false -> ble x y = true ->
+  (sar_acc bits vmax x <= sar_acc bits vmax y)%Z.
+Proof.
+  intros Fv Pv Nx Ny Hxy.
+  pose proof (sar_acc_range bits vmax x Hb) as Rx. pose proof (sar_acc_range bits vmax y Hb) as Ry.
+  destruct x as [sx|[|]| |sx mx ex Bx]; try discriminate Nx;
+  destruct y as [sy|[|]| |sy my ey By]; try discriminate Ny.
+  all: try (apply sar_acc_monotone; auto; reflexivity).
+  all: try (change (B754_infinity true) with ninf; rewrite (sar_acc_ninf vmax Fv Pv); lia).
+  all: try (change (B754_infinity false) with pinf; rewrite (sar_acc_pinf vmax Fv Pv); lia).
+  all: exfalso; revert Hxy; unfold ble; simpl; try destruct sx; try destruct sy; discriminate.
+Qed.
+
+End SarInf.
